@@ -43,18 +43,90 @@ constexpr size_t len(T const (&)[N])
     return N;
 }
 
+// ------------------------------------------------------------------ observed constant-evaluability
+// "Is this call a constant expression, and if so what is its value" is an OBSERVED outcome of every case, not a
+// requirement of the build.  Every table of compile-time results is built by ce_table from a captureless lambda
+// `size_t flat case index -> R` that makes the etl call of ONE case.  A range of cases is first evaluated inside a
+// requires-expression (a template argument that is not a constant expression is a substitution failure, not an
+// error); a range that fails is bisected BY THE COMPILER down to the offending cases, whose `ce` flag stays false
+// while every other case keeps its compile-time value.  Reading an entry whose flag is false sets g_ce_fail and
+// vh::run_case then answers `ce-fail` for that case.  Cost when everything is constant: each case is evaluated
+// twice (once in the probe, once for the value).
+inline bool g_ce_fail = false;
+
+template <typename R, size_t N>
+struct CeVec {
+    R d[N]{};
+    bool ce[N]{};
+    constexpr R const& operator[](size_t i) const
+    {
+        if (!__builtin_is_constant_evaluated() && !ce[i]) { g_ce_fail = true; }
+        return d[i];
+    }
+};
 template <typename R, size_t N>
 struct Arr {
-    R v[N]{};
+    static constexpr size_t size = N;
+    CeVec<R, N> v{};
+    constexpr void set(size_t x, R const& val)
+    {
+        v.d[x]  = val;
+        v.ce[x] = true;
+    }
+    constexpr R const& operator[](size_t i) const { return v[i]; }
 };
 template <typename R, size_t N, size_t M>
 struct Arr2 {
-    R v[N][M]{};
+    static constexpr size_t size = N * M;
+    CeVec<R, M> v[N]{};
+    constexpr void set(size_t x, R const& val)
+    {
+        v[x / M].d[x % M]  = val;
+        v[x / M].ce[x % M] = true;
+    }
+    constexpr CeVec<R, M> const& operator[](size_t i) const { return v[i]; }
 };
 template <typename R, size_t N, size_t M, size_t K>
 struct Arr3 {
-    R v[N][M][K]{};
+    static constexpr size_t size = N * M * K;
+    CeVec<R, K> v[N][M]{};
+    constexpr void set(size_t x, R const& val)
+    {
+        v[x / (M * K)][(x / K) % M].d[x % K]  = val;
+        v[x / (M * K)][(x / K) % M].ce[x % K] = true;
+    }
 };
+
+template <typename F, size_t Lo, size_t Hi>
+constexpr int ce_run()
+{
+    for (size_t i = Lo; i < Hi; ++i) { static_cast<void>(F{}(i)); }
+    return 0;
+}
+template <int>
+struct ce_tag {};
+template <typename F, size_t Lo, size_t Hi>
+concept ce_range = requires { typename ce_tag<ce_run<F, Lo, Hi>()>; };
+template <typename F, size_t Lo, size_t Hi, typename T>
+constexpr void ce_fill(T& t)
+{
+    if constexpr (Lo >= Hi) {
+    } else if constexpr (ce_range<F, Lo, Hi>) {
+        for (size_t i = Lo; i < Hi; ++i) { t.set(i, F{}(i)); }
+    } else if constexpr (Hi - Lo == 1) {
+        // case Lo is not a constant expression: its flag stays false
+    } else {
+        ce_fill<F, Lo, Lo + (Hi - Lo) / 2>(t);
+        ce_fill<F, Lo + (Hi - Lo) / 2, Hi>(t);
+    }
+}
+template <typename T, typename F>
+constexpr auto ce_table(F)
+{
+    T t{};
+    ce_fill<F, 0, T::size>(t);
+    return t;
+}
 
 // run-time laundering: the value goes through a volatile object
 template <typename T>
@@ -64,43 +136,32 @@ template <typename T>
     return v;
 }
 
-template <typename R, typename T, size_t N, typename F>
-constexpr auto ct_map(T const (&tab)[N], F f)
+template <typename R, auto const& Tab, typename F>
+constexpr auto ct_map(F)
 {
-    Arr<R, N> r{};
-    for (size_t i = 0; i < N; ++i) { r.v[i] = f(tab[i]); }
-    return r;
-}
-template <typename R, typename T, size_t N, typename F>
-constexpr auto ct_map2(T const (&tab)[N], F f)
-{
-    Arr2<R, N, N> r{};
-    for (size_t i = 0; i < N; ++i) {
-        for (size_t j = 0; j < N; ++j) { r.v[i][j] = f(tab[i], tab[j]); }
-    }
-    return r;
+    return ce_table<Arr<R, len(Tab)>>([](size_t i) { return static_cast<R>(F{}(Tab[i])); });
 }
 
 // ------------------------------------------------------------------ integers
-constexpr auto CT_POP8   = ct_map<int>(T_U8, [](unsigned char x) { return etl::popcount(x); });
-constexpr auto CT_POP16  = ct_map<int>(T_U16, [](unsigned short x) { return etl::popcount(x); });
-constexpr auto CT_POP32  = ct_map<int>(T_U32, [](unsigned x) { return etl::popcount(x); });
-constexpr auto CT_POP64  = ct_map<int>(T_U64, [](unsigned long long x) { return etl::popcount(x); });
-constexpr auto CT_POP64L = ct_map<int>(T_U64, [](unsigned long long x) { return etl::popcount(static_cast<unsigned long>(x)); });
+constexpr auto CT_POP8   = ct_map<int, T_U8>([](unsigned char x) { return etl::popcount(x); });
+constexpr auto CT_POP16  = ct_map<int, T_U16>([](unsigned short x) { return etl::popcount(x); });
+constexpr auto CT_POP32  = ct_map<int, T_U32>([](unsigned x) { return etl::popcount(x); });
+constexpr auto CT_POP64  = ct_map<int, T_U64>([](unsigned long long x) { return etl::popcount(x); });
+constexpr auto CT_POP64L = ct_map<int, T_U64>([](unsigned long long x) { return etl::popcount(static_cast<unsigned long>(x)); });
 
-constexpr auto CT_BS16 = ct_map<std::uint16_t>(T_U16, [](std::uint16_t x) { return etl::byteswap(x); });
-constexpr auto CT_BS32 = ct_map<std::uint32_t>(T_U32, [](std::uint32_t x) { return etl::byteswap(x); });
-constexpr auto CT_BS64 = ct_map<std::uint64_t>(T_U64, [](std::uint64_t x) { return etl::byteswap(static_cast<std::uint64_t>(x)); });
-constexpr auto CT_BS8  = ct_map<std::uint8_t>(T_U8, [](std::uint8_t x) { return etl::byteswap(x); });
-constexpr auto CT_BSF16 = ct_map<std::uint16_t>(T_U16, [](std::uint16_t x) { return etl::detail::byteswap_fallback(x); });
-constexpr auto CT_BSF32 = ct_map<std::uint32_t>(T_U32, [](std::uint32_t x) { return etl::detail::byteswap_fallback(x); });
+constexpr auto CT_BS16 = ct_map<std::uint16_t, T_U16>([](std::uint16_t x) { return etl::byteswap(x); });
+constexpr auto CT_BS32 = ct_map<std::uint32_t, T_U32>([](std::uint32_t x) { return etl::byteswap(x); });
+constexpr auto CT_BS64 = ct_map<std::uint64_t, T_U64>([](std::uint64_t x) { return etl::byteswap(static_cast<std::uint64_t>(x)); });
+constexpr auto CT_BS8  = ct_map<std::uint8_t, T_U8>([](std::uint8_t x) { return etl::byteswap(x); });
+constexpr auto CT_BSF16 = ct_map<std::uint16_t, T_U16>([](std::uint16_t x) { return etl::detail::byteswap_fallback(x); });
+constexpr auto CT_BSF32 = ct_map<std::uint32_t, T_U32>([](std::uint32_t x) { return etl::detail::byteswap_fallback(x); });
 constexpr auto CT_BSF64
-    = ct_map<std::uint64_t>(T_U64, [](unsigned long long x) { return etl::detail::byteswap_fallback(static_cast<std::uint64_t>(x)); });
+    = ct_map<std::uint64_t, T_U64>([](unsigned long long x) { return etl::detail::byteswap_fallback(static_cast<std::uint64_t>(x)); });
 
 // every 16-bit value (index = value): popcount, byteswap through the builtin and through the fallback
 struct All16 {
-    unsigned char pop[65536]{};
-    std::uint16_t bs[65536]{}, bsf[65536]{};
+    Arr<unsigned char, 65536> pop{};
+    Arr<std::uint16_t, 65536> bs{}, bsf{};
 };
 // clang 14's constant evaluator needs ~40 s for this table (g++: 2 s): with clang the op answers `skip`
 #if defined(__clang__)
@@ -111,49 +172,48 @@ constexpr bool HAVE_ALL16 = true;
 constexpr auto compute_all16()
 {
     All16 r{};
-    for (unsigned v = 0; HAVE_ALL16 && v < 65536U; ++v) {
-        auto const x = static_cast<std::uint16_t>(v);
-        r.pop[v]     = static_cast<unsigned char>(etl::popcount(x));
-        r.bs[v]      = etl::byteswap(x);
-        r.bsf[v]     = etl::detail::byteswap_fallback(x);
+    if constexpr (HAVE_ALL16) {
+        r.pop = ce_table<Arr<unsigned char, 65536>>(
+            [](size_t v) { return static_cast<unsigned char>(etl::popcount(static_cast<std::uint16_t>(v))); });
+        r.bs  = ce_table<Arr<std::uint16_t, 65536>>([](size_t v) { return etl::byteswap(static_cast<std::uint16_t>(v)); });
+        r.bsf = ce_table<Arr<std::uint16_t, 65536>>(
+            [](size_t v) { return etl::detail::byteswap_fallback(static_cast<std::uint16_t>(v)); });
     }
     return r;
 }
 constexpr auto CT_ALL16 = compute_all16();
 
-template <typename Int, bool Fallback, typename T, size_t N>
-constexpr auto ct_sat(T const (&tab)[N])
+template <typename Int, bool Fallback, auto const& Tab>
+constexpr auto ct_sat()
 {
-    Arr2<Int, N, N> r{};
-    for (size_t i = 0; i < N; ++i) {
-        for (size_t j = 0; j < N; ++j) {
-            auto const x = static_cast<Int>(tab[i]);
-            auto const y = static_cast<Int>(tab[j]);
-            if constexpr (Fallback) {
-                r.v[i][j] = etl::detail::add_sat_fallback(x, y);
-            } else {
-                r.v[i][j] = etl::add_sat(x, y);
-            }
+    constexpr size_t N = len(Tab);
+    return ce_table<Arr2<Int, N, N>>([](size_t c) {
+        constexpr size_t M = len(Tab);
+        auto const x       = static_cast<Int>(Tab[c / M]);
+        auto const y       = static_cast<Int>(Tab[c % M]);
+        if constexpr (Fallback) {
+            return etl::detail::add_sat_fallback(x, y);
+        } else {
+            return etl::add_sat(x, y);
         }
-    }
-    return r;
+    });
 }
-constexpr auto CT_SAT_I8   = ct_sat<signed char, false>(T_U8); // index = value as unsigned char
-constexpr auto CT_SAT_U8   = ct_sat<unsigned char, false>(T_U8);
-constexpr auto CT_SATF_I8  = ct_sat<signed char, true>(T_U8);
-constexpr auto CT_SATF_U8  = ct_sat<unsigned char, true>(T_U8);
-constexpr auto CT_SAT_I16  = ct_sat<short, false>(T_SAT_I16);
-constexpr auto CT_SAT_U16  = ct_sat<unsigned short, false>(T_SAT_U16);
-constexpr auto CT_SATF_I16 = ct_sat<short, true>(T_SAT_I16);
-constexpr auto CT_SATF_U16 = ct_sat<unsigned short, true>(T_SAT_U16);
-constexpr auto CT_SAT_I32  = ct_sat<int, false>(T_SAT_I32);
-constexpr auto CT_SAT_U32  = ct_sat<unsigned, false>(T_SAT_U32);
-constexpr auto CT_SATF_I32 = ct_sat<int, true>(T_SAT_I32);
-constexpr auto CT_SATF_U32 = ct_sat<unsigned, true>(T_SAT_U32);
-constexpr auto CT_SAT_I64  = ct_sat<long long, false>(T_SAT_I64);
-constexpr auto CT_SAT_U64  = ct_sat<unsigned long long, false>(T_SAT_U64);
-constexpr auto CT_SATF_I64 = ct_sat<long long, true>(T_SAT_I64);
-constexpr auto CT_SATF_U64 = ct_sat<unsigned long long, true>(T_SAT_U64);
+constexpr auto CT_SAT_I8   = ct_sat<signed char, false, T_U8>(); // index = value as unsigned char
+constexpr auto CT_SAT_U8   = ct_sat<unsigned char, false, T_U8>();
+constexpr auto CT_SATF_I8  = ct_sat<signed char, true, T_U8>();
+constexpr auto CT_SATF_U8  = ct_sat<unsigned char, true, T_U8>();
+constexpr auto CT_SAT_I16  = ct_sat<short, false, T_SAT_I16>();
+constexpr auto CT_SAT_U16  = ct_sat<unsigned short, false, T_SAT_U16>();
+constexpr auto CT_SATF_I16 = ct_sat<short, true, T_SAT_I16>();
+constexpr auto CT_SATF_U16 = ct_sat<unsigned short, true, T_SAT_U16>();
+constexpr auto CT_SAT_I32  = ct_sat<int, false, T_SAT_I32>();
+constexpr auto CT_SAT_U32  = ct_sat<unsigned, false, T_SAT_U32>();
+constexpr auto CT_SATF_I32 = ct_sat<int, true, T_SAT_I32>();
+constexpr auto CT_SATF_U32 = ct_sat<unsigned, true, T_SAT_U32>();
+constexpr auto CT_SAT_I64  = ct_sat<long long, false, T_SAT_I64>();
+constexpr auto CT_SAT_U64  = ct_sat<unsigned long long, false, T_SAT_U64>();
+constexpr auto CT_SATF_I64 = ct_sat<long long, true, T_SAT_I64>();
+constexpr auto CT_SATF_U64 = ct_sat<unsigned long long, true, T_SAT_U64>();
 
 // ------------------------------------------------------------------ strings
 constexpr size_t NSTR           = len(T_STR);
@@ -166,64 +226,50 @@ constexpr size_t NMEM           = len(MEM_COUNTS);
 
 constexpr int sgn(int x) { return x < 0 ? -1 : (x > 0 ? 1 : 0); }
 
-constexpr auto compute_strlen()
+// every string case is a ce_table entry: a call that is not a constant expression prints `ce-fail` for that case
+constexpr auto CT_STRLEN = ce_table<Arr<size_t, NSTR>>([](size_t i) { return etl::strlen(T_STR[i]); });
+constexpr auto CT_STRCMP = ce_table<Arr<int, NSTR * NSTR>>([](size_t x) { return sgn(etl::strcmp(T_STR[x / NSTR], T_STR[x % NSTR])); });
+constexpr auto CT_STRNCMP = ce_table<Arr<int, NSTR * NSTR * NCNT>>([](size_t x) {
+    auto const k = x % NCNT;
+    auto const j = (x / NCNT) % NSTR;
+    auto const i = x / NCNT / NSTR;
+    return sgn(etl::strncmp(T_STR[i], T_STR[j], STR_COUNTS[k]));
+});
+constexpr auto CT_STRCHR = ce_table<Arr<int, NSTR * NCHR>>([](size_t x) {
+    auto const i  = x / NCHR;
+    char const* p = etl::strchr(T_STR[i], STR_CHARS[x % NCHR]);
+    return p == nullptr ? -1 : static_cast<int>(p - T_STR[i]);
+});
+// etl::memchr itself is not constexpr; its GCC path is detail::memchr<unsigned char const, size_t>.  The searched
+// range is [buf + off, buf + off + n) of a local array of exactly STRW bytes: with off + n == STRW it ends flush with
+// the END OF THE ARRAY OBJECT (a read of ptr[n] is then not a constant expression), off == STRW is the empty range at
+// the end.
+constexpr int memchr_ct(size_t i, size_t k, size_t off, size_t n)
 {
-    Arr<size_t, NSTR> r{};
-    for (size_t i = 0; i < NSTR; ++i) { r.v[i] = etl::strlen(T_STR[i]); }
-    return r;
+    unsigned char buf[STRW]{};
+    for (int b = 0; b < STRW; ++b) { buf[b] = static_cast<unsigned char>(T_STR[i][b]); }
+    unsigned char const* const base = buf + off;
+    auto const* p = etl::detail::memchr<unsigned char const, etl::size_t>(base, static_cast<unsigned char>(STR_CHARS[k]), n);
+    return p == nullptr ? -1 : static_cast<int>(p - base);
 }
-constexpr auto compute_strcmp()
+constexpr auto CT_MEMCHR = ce_table<Arr<int, NSTR * NCHR * NMEM>>([](size_t x) {
+    return memchr_ct(x / NMEM / NCHR, (x / NMEM) % NCHR, 0, MEM_COUNTS[x % NMEM]);
+});
+// op memchr_at: every offset 0..STRW with the counts that reach the end of the array (flush), stop one short of it,
+// 0, 1 and half of the rest
+constexpr size_t NOFF = STRW + 1;
+constexpr bool at_pair(size_t off, size_t n)
 {
-    Arr2<int, NSTR, NSTR> r{};
-    for (size_t i = 0; i < NSTR; ++i) {
-        for (size_t j = 0; j < NSTR; ++j) { r.v[i][j] = sgn(etl::strcmp(T_STR[i], T_STR[j])); }
-    }
-    return r;
+    auto const rest = static_cast<size_t>(STRW) - off;
+    return off <= static_cast<size_t>(STRW) && n <= rest && (n == rest || n + 1 == rest || n == 0 || n == 1 || n == rest / 2);
 }
-constexpr auto compute_strncmp()
-{
-    Arr3<int, NSTR, NSTR, NCNT> r{};
-    for (size_t i = 0; i < NSTR; ++i) {
-        for (size_t j = 0; j < NSTR; ++j) {
-            for (size_t k = 0; k < NCNT; ++k) { r.v[i][j][k] = sgn(etl::strncmp(T_STR[i], T_STR[j], STR_COUNTS[k])); }
-        }
-    }
-    return r;
-}
-constexpr auto compute_strchr()
-{
-    Arr2<int, NSTR, NCHR> r{};
-    for (size_t i = 0; i < NSTR; ++i) {
-        for (size_t k = 0; k < NCHR; ++k) {
-            char const* p = etl::strchr(T_STR[i], STR_CHARS[k]);
-            r.v[i][k]     = p == nullptr ? -1 : static_cast<int>(p - T_STR[i]);
-        }
-    }
-    return r;
-}
-// etl::memchr itself is not constexpr; its GCC path is detail::memchr<unsigned char const, size_t>
-constexpr auto compute_memchr()
-{
-    Arr3<int, NSTR, NCHR, NMEM> r{};
-    for (size_t i = 0; i < NSTR; ++i) {
-        unsigned char buf[STRW]{};
-        for (int b = 0; b < STRW; ++b) { buf[b] = static_cast<unsigned char>(T_STR[i][b]); }
-        unsigned char const* const base = buf;
-        for (size_t k = 0; k < NCHR; ++k) {
-            for (size_t n = 0; n < NMEM; ++n) {
-                auto const* p = etl::detail::memchr<unsigned char const, etl::size_t>(
-                    base, static_cast<unsigned char>(STR_CHARS[k]), MEM_COUNTS[n]);
-                r.v[i][k][n] = p == nullptr ? -1 : static_cast<int>(p - base);
-            }
-        }
-    }
-    return r;
-}
-constexpr auto CT_STRLEN  = compute_strlen();
-constexpr auto CT_STRCMP  = compute_strcmp();
-constexpr auto CT_STRNCMP = compute_strncmp();
-constexpr auto CT_STRCHR  = compute_strchr();
-constexpr auto CT_MEMCHR  = compute_memchr();
+constexpr auto CT_MEMCHR_AT = ce_table<Arr<int, NSTR * NCHR * NOFF * NOFF>>([](size_t x) {
+    auto const n   = x % NOFF;
+    auto const off = (x / NOFF) % NOFF;
+    auto const k   = (x / NOFF / NOFF) % NCHR;
+    auto const i   = x / NOFF / NOFF / NCHR;
+    return at_pair(off, n) ? memchr_ct(i, k, off, n) : -2;
+});
 
 // ------------------------------------------------------------------ floating point
 template <typename F>
@@ -259,66 +305,62 @@ constexpr bool lrint_dom(F x)
 
 template <typename F, size_t N>
 struct FloatCT {
-    fbits_t<F> floor_[N]{}, ceil_[N]{}, trunc_[N]{}, round_[N]{}, rint_[N]{};
-    long lrint_[N]{};
-    long long llrint_[N]{};
-    bool signbit_[N]{}, isnan_[N]{}, isinf_[N]{};
+    Arr<fbits_t<F>, N> floor_{}, ceil_{}, trunc_{}, round_{}, rint_{};
+    Arr<long, N> lrint_{};
+    Arr<long long, N> llrint_{};
+    Arr<bool, N> signbit_{}, isnan_{}, isinf_{};
 };
 
-template <typename F, size_t N>
-constexpr auto compute_float(fbits_t<F> const (&tab)[N])
+// one ce_table per function: every (function, value) pair is its own case
+template <typename F, auto const& Tab>
+constexpr auto compute_float()
 {
+    constexpr size_t N = len(Tab);
+    using B            = fbits_t<F>;
     FloatCT<F, N> r{};
-    for (size_t i = 0; i < N; ++i) {
-        F const x    = to_f<F>(tab[i]);
-        r.floor_[i]  = to_b(etl::floor(x));
-        r.ceil_[i]   = to_b(etl::ceil(x));
-        r.trunc_[i]  = to_b(etl::trunc(x));
-        r.round_[i]  = to_b(etl::round(x));
-        r.rint_[i]   = to_b(etl::rint(x));
-        r.lrint_[i]  = lrint_dom(x) ? etl::lrint(x) : 0;
-        r.llrint_[i] = lrint_dom(x) ? etl::llrint(x) : 0;
-        r.signbit_[i] = etl::signbit(x);
-        r.isnan_[i]   = etl::isnan(x);
-        r.isinf_[i]   = etl::isinf(x);
-    }
+    r.floor_   = ce_table<Arr<B, N>>([](size_t i) { return to_b(etl::floor(to_f<F>(Tab[i]))); });
+    r.ceil_    = ce_table<Arr<B, N>>([](size_t i) { return to_b(etl::ceil(to_f<F>(Tab[i]))); });
+    r.trunc_   = ce_table<Arr<B, N>>([](size_t i) { return to_b(etl::trunc(to_f<F>(Tab[i]))); });
+    r.round_   = ce_table<Arr<B, N>>([](size_t i) { return to_b(etl::round(to_f<F>(Tab[i]))); });
+    r.rint_    = ce_table<Arr<B, N>>([](size_t i) { return to_b(etl::rint(to_f<F>(Tab[i]))); });
+    r.lrint_   = ce_table<Arr<long, N>>([](size_t i) { return lrint_dom(to_f<F>(Tab[i])) ? etl::lrint(to_f<F>(Tab[i])) : 0L; });
+    r.llrint_  = ce_table<Arr<long long, N>>([](size_t i) { return lrint_dom(to_f<F>(Tab[i])) ? etl::llrint(to_f<F>(Tab[i])) : 0LL; });
+    r.signbit_ = ce_table<Arr<bool, N>>([](size_t i) { return etl::signbit(to_f<F>(Tab[i])); });
+    r.isnan_   = ce_table<Arr<bool, N>>([](size_t i) { return etl::isnan(to_f<F>(Tab[i])); });
+    r.isinf_   = ce_table<Arr<bool, N>>([](size_t i) { return etl::isinf(to_f<F>(Tab[i])); });
     return r;
 }
-constexpr auto CT_F32 = compute_float<float>(T_F32);
-constexpr auto CT_F64 = compute_float<double>(T_F64);
+constexpr auto CT_F32 = compute_float<float, T_F32>();
+constexpr auto CT_F64 = compute_float<double, T_F64>();
 
-template <typename F, size_t N>
-constexpr auto compute_copysign(fbits_t<F> const (&tab)[N])
+template <typename F, auto const& Tab>
+constexpr auto compute_copysign()
 {
-    Arr2<fbits_t<F>, N, N> r{};
-    for (size_t i = 0; i < N; ++i) {
-        for (size_t j = 0; j < N; ++j) { r.v[i][j] = to_b(etl::copysign(to_f<F>(tab[i]), to_f<F>(tab[j]))); }
-    }
-    return r;
+    constexpr size_t N = len(Tab);
+    return ce_table<Arr2<fbits_t<F>, N, N>>([](size_t c) {
+        constexpr size_t M = len(Tab);
+        return to_b(etl::copysign(to_f<F>(Tab[c / M]), to_f<F>(Tab[c % M])));
+    });
 }
-constexpr auto CT_CS32 = compute_copysign<float>(T_SF32);
-constexpr auto CT_CS64 = compute_copysign<double>(T_SF64);
+constexpr auto CT_CS32 = compute_copysign<float, T_SF32>();
+constexpr auto CT_CS64 = compute_copysign<double, T_SF64>();
 
-template <typename F, size_t N>
-constexpr auto compute_fma(fbits_t<F> const (&tab)[N])
+template <typename F, auto const& Tab>
+constexpr auto compute_fma()
 {
-    Arr3<fbits_t<F>, N, N, N> r{};
-    for (size_t i = 0; i < N; ++i) {
-        for (size_t j = 0; j < N; ++j) {
-            for (size_t k = 0; k < N; ++k) {
-                r.v[i][j][k] = to_b(etl::fma(to_f<F>(tab[i]), to_f<F>(tab[j]), to_f<F>(tab[k])));
-            }
-        }
-    }
-    return r;
+    constexpr size_t N = len(Tab);
+    return ce_table<Arr3<fbits_t<F>, N, N, N>>([](size_t c) {
+        constexpr size_t M = len(Tab);
+        return to_b(etl::fma(to_f<F>(Tab[c / (M * M)]), to_f<F>(Tab[(c / M) % M]), to_f<F>(Tab[c % M])));
+    });
 }
-constexpr auto CT_FMA32 = compute_fma<float>(T_FMA32);
-constexpr auto CT_FMA64 = compute_fma<double>(T_FMA64);
+constexpr auto CT_FMA32 = compute_fma<float, T_FMA32>();
+constexpr auto CT_FMA64 = compute_fma<double, T_FMA64>();
 
 // fmod / remainder over all pairs
 template <typename F, size_t N>
 struct FmodCT {
-    fbits_t<F> fmod_[N][N]{}, rem_[N][N]{};
+    Arr2<fbits_t<F>, N, N> fmod_{}, rem_{};
     bool skip_[N][N]{};
 };
 // finite operands more than 300 binades apart (thousands of loop iterations each): evaluated by g++ only, clang 14's
@@ -339,26 +381,28 @@ constexpr bool fmod_far(fbits_t<F> a, fbits_t<F> b)
     return false;
 #endif
 }
-template <typename F, size_t N>
-constexpr auto compute_fmod(fbits_t<F> const (&tab)[N])
+template <typename F, auto const& Tab>
+constexpr auto compute_fmod()
 {
+    constexpr size_t N = len(Tab);
     FmodCT<F, N> r{};
     for (size_t i = 0; i < N; ++i) {
-        for (size_t j = 0; j < N; ++j) {
-            if (fmod_far<F>(tab[i], tab[j])) {
-                r.skip_[i][j] = true;
-                continue;
-            }
-            F const x = to_f<F>(tab[i]);
-            F const y = to_f<F>(tab[j]);
-            r.fmod_[i][j] = to_b(etl::fmod(x, y));
-            r.rem_[i][j]  = to_b(etl::remainder(x, y));
-        }
+        for (size_t j = 0; j < N; ++j) { r.skip_[i][j] = fmod_far<F>(Tab[i], Tab[j]); }
     }
+    r.fmod_ = ce_table<Arr2<fbits_t<F>, N, N>>([](size_t c) {
+        constexpr size_t M = len(Tab);
+        if (fmod_far<F>(Tab[c / M], Tab[c % M])) { return fbits_t<F>{0}; }
+        return to_b(etl::fmod(to_f<F>(Tab[c / M]), to_f<F>(Tab[c % M])));
+    });
+    r.rem_ = ce_table<Arr2<fbits_t<F>, N, N>>([](size_t c) {
+        constexpr size_t M = len(Tab);
+        if (fmod_far<F>(Tab[c / M], Tab[c % M])) { return fbits_t<F>{0}; }
+        return to_b(etl::remainder(to_f<F>(Tab[c / M]), to_f<F>(Tab[c % M])));
+    });
     return r;
 }
-constexpr auto CT_FMOD32 = compute_fmod<float>(T_FMOD32);
-constexpr auto CT_FMOD64 = compute_fmod<double>(T_FMOD64);
+constexpr auto CT_FMOD32 = compute_fmod<float, T_FMOD32>();
+constexpr auto CT_FMOD64 = compute_fmod<double, T_FMOD64>();
 
 // long double (x87 extended): values are built exactly from (sign, 64-bit significand, exponent)
 constexpr long double make_ld(ld_rep r)
@@ -378,10 +422,11 @@ constexpr long double make_ld(ld_rep r)
 }
 constexpr size_t NLD = len(T_LD);
 struct LdCT {
-    long double floor_[NLD]{}, ceil_[NLD]{}, trunc_[NLD]{}, round_[NLD]{}, rint_[NLD]{};
-    long lrint_[NLD]{};
-    long long llrint_[NLD]{};
-    bool signbit_[NLD]{}, isnan_[NLD]{}, isinf_[NLD]{}, dom_[NLD]{}, rdom_[NLD]{};
+    Arr<long double, NLD> floor_{}, ceil_{}, trunc_{}, round_{}, rint_{};
+    Arr<long, NLD> lrint_{};
+    Arr<long long, NLD> llrint_{};
+    Arr<bool, NLD> signbit_{}, isnan_{}, isinf_{};
+    bool dom_[NLD]{}, rdom_[NLD]{};
 };
 constexpr bool ld_round_dom(long double)
 {
@@ -397,59 +442,48 @@ constexpr auto compute_ld()
 {
     LdCT r{};
     for (size_t i = 0; i < NLD; ++i) {
-        long double const x = make_ld(T_LD[i]);
-        r.floor_[i]         = etl::floor(x);
-        r.ceil_[i]          = etl::ceil(x);
-        r.trunc_[i]         = etl::trunc(x);
-        r.rdom_[i]          = ld_round_dom(x);
-        r.round_[i]         = r.rdom_[i] ? etl::round(x) : 0.0L;
-        r.rint_[i]          = etl::rint(x);
-        r.dom_[i]           = ld_lrint_dom(x);
-        r.lrint_[i]         = r.dom_[i] ? etl::lrint(x) : 0;
-        r.llrint_[i]        = r.dom_[i] ? etl::llrint(x) : 0;
-        r.signbit_[i]       = etl::signbit(x);
-        r.isnan_[i]         = etl::isnan(x);
-        r.isinf_[i]         = etl::isinf(x);
+        r.rdom_[i] = ld_round_dom(make_ld(T_LD[i]));
+        r.dom_[i]  = ld_lrint_dom(make_ld(T_LD[i]));
     }
+    r.floor_   = ce_table<Arr<long double, NLD>>([](size_t i) { return etl::floor(make_ld(T_LD[i])); });
+    r.ceil_    = ce_table<Arr<long double, NLD>>([](size_t i) { return etl::ceil(make_ld(T_LD[i])); });
+    r.trunc_   = ce_table<Arr<long double, NLD>>([](size_t i) { return etl::trunc(make_ld(T_LD[i])); });
+    r.round_   = ce_table<Arr<long double, NLD>>([](size_t i) { return ld_round_dom(make_ld(T_LD[i])) ? etl::round(make_ld(T_LD[i])) : 0.0L; });
+    r.rint_    = ce_table<Arr<long double, NLD>>([](size_t i) { return etl::rint(make_ld(T_LD[i])); });
+    r.lrint_   = ce_table<Arr<long, NLD>>([](size_t i) { return ld_lrint_dom(make_ld(T_LD[i])) ? etl::lrint(make_ld(T_LD[i])) : 0L; });
+    r.llrint_  = ce_table<Arr<long long, NLD>>([](size_t i) { return ld_lrint_dom(make_ld(T_LD[i])) ? etl::llrint(make_ld(T_LD[i])) : 0LL; });
+    r.signbit_ = ce_table<Arr<bool, NLD>>([](size_t i) { return etl::signbit(make_ld(T_LD[i])); });
+    r.isnan_   = ce_table<Arr<bool, NLD>>([](size_t i) { return etl::isnan(make_ld(T_LD[i])); });
+    r.isinf_   = ce_table<Arr<bool, NLD>>([](size_t i) { return etl::isinf(make_ld(T_LD[i])); });
     return r;
 }
 constexpr auto CT_LD = compute_ld();
 constexpr auto compute_ld_copysign()
 {
-    Arr2<long double, NLD, NLD> r{};
-    for (size_t i = 0; i < NLD; ++i) {
-        for (size_t j = 0; j < NLD; ++j) { r.v[i][j] = etl::copysign(make_ld(T_LD[i]), make_ld(T_LD[j])); }
-    }
-    return r;
+    return ce_table<Arr2<long double, NLD, NLD>>([](size_t c) { return etl::copysign(make_ld(T_LD[c / NLD]), make_ld(T_LD[c % NLD])); });
 }
 constexpr auto CT_LD_CS = compute_ld_copysign();
 constexpr size_t NLDFM = len(T_LDFM);
 struct LdFmod {
-    long double fmod_[NLDFM][NLDFM]{}, rem_[NLDFM][NLDFM]{};
+    Arr2<long double, NLDFM, NLDFM> fmod_{}, rem_{};
 };
 constexpr auto compute_ld_fmod()
 {
     LdFmod r{};
-    for (size_t i = 0; i < NLDFM; ++i) {
-        for (size_t j = 0; j < NLDFM; ++j) {
-            r.fmod_[i][j] = etl::fmod(make_ld(T_LDFM[i]), make_ld(T_LDFM[j]));
-            r.rem_[i][j]  = etl::remainder(make_ld(T_LDFM[i]), make_ld(T_LDFM[j]));
-        }
-    }
+    r.fmod_ = ce_table<Arr2<long double, NLDFM, NLDFM>>([](size_t c) { return etl::fmod(make_ld(T_LDFM[c / NLDFM]), make_ld(T_LDFM[c % NLDFM])); });
+    r.rem_  = ce_table<Arr2<long double, NLDFM, NLDFM>>([](size_t c) { return etl::remainder(make_ld(T_LDFM[c / NLDFM]), make_ld(T_LDFM[c % NLDFM])); });
     return r;
 }
 constexpr auto CT_LDFM = compute_ld_fmod();
 
 // etl::bit_cast: pattern -> floating point -> pattern
-template <typename F, size_t N>
-constexpr auto compute_bitcast(fbits_t<F> const (&tab)[N])
+template <typename F, auto const& Tab>
+constexpr auto compute_bitcast()
 {
-    Arr<fbits_t<F>, N> r{};
-    for (size_t i = 0; i < N; ++i) { r.v[i] = etl::bit_cast<fbits_t<F>>(etl::bit_cast<F>(tab[i])); }
-    return r;
+    return ce_table<Arr<fbits_t<F>, len(Tab)>>([](size_t i) { return etl::bit_cast<fbits_t<F>>(etl::bit_cast<F>(Tab[i])); });
 }
-constexpr auto CT_BC32 = compute_bitcast<float>(T_F32);
-constexpr auto CT_BC64 = compute_bitcast<double>(T_F64);
+constexpr auto CT_BC32 = compute_bitcast<float, T_F32>();
+constexpr auto CT_BC64 = compute_bitcast<double, T_F64>();
 template <typename F>
 [[gnu::noinline]] auto rt_bitcast(fbits_t<F> b) -> fbits_t<F>
 {
@@ -484,23 +518,26 @@ constexpr auto wm_two(int row, int d, int s, int n) -> WmRes
     (void)etl::wmemmove(r.v + d, src + s, static_cast<etl::size_t>(n));
     return r;
 }
+constexpr size_t WMD = WMN + 1;
 struct WmAll {
-    WmRes one[2][WMN + 1][WMN + 1][WMN + 1]{};
-    WmRes two[2][WMN + 1][WMN + 1][WMN + 1]{};
+    Arr<WmRes, 2 * WMD * WMD * WMD> one{}, two{};
 };
+constexpr size_t wm_index(size_t row, size_t d, size_t s, size_t n) { return ((row * WMD + d) * WMD + s) * WMD + n; }
+template <bool Two>
+constexpr auto wm_case(size_t c) -> WmRes
+{
+    auto const n   = static_cast<int>(c % WMD);
+    auto const s   = static_cast<int>((c / WMD) % WMD);
+    auto const d   = static_cast<int>((c / WMD / WMD) % WMD);
+    auto const row = static_cast<int>(c / WMD / WMD / WMD);
+    if (d + n > WMN || s + n > WMN) { return WmRes{}; }
+    return Two ? wm_two(row, d, s, n) : wm_one(row, d, s, n);
+}
 constexpr auto compute_wm()
 {
     WmAll a{};
-    for (int row = 0; row < 2; ++row) {
-        for (int d = 0; d <= WMN; ++d) {
-            for (int s = 0; s <= WMN; ++s) {
-                for (int n = 0; d + n <= WMN && s + n <= WMN; ++n) {
-                    a.one[row][d][s][n] = wm_one(row, d, s, n);
-                    a.two[row][d][s][n] = wm_two(row, d, s, n);
-                }
-            }
-        }
-    }
+    a.one = ce_table<Arr<WmRes, 2 * WMD * WMD * WMD>>([](size_t c) { return wm_case<false>(c); });
+    a.two = ce_table<Arr<WmRes, 2 * WMD * WMD * WMD>>([](size_t c) { return wm_case<true>(c); });
     return a;
 }
 constexpr auto CT_WM = compute_wm();
@@ -523,7 +560,7 @@ constexpr auto civil(long long z) -> Civil
     auto const ymd = ch::year_month_day{ch::sys_days{ch::days{static_cast<int>(z)}}};
     return {static_cast<int>(ymd.year()), static_cast<unsigned>(ymd.month()), static_cast<unsigned>(ymd.day())};
 }
-constexpr auto CT_CIVIL = ct_map<Civil>(T_DAYS, [](long long z) { return civil(z); });
+constexpr auto CT_CIVIL = ct_map<Civil, T_DAYS>([](long long z) { return civil(z); });
 
 struct Text {
     int n;
@@ -536,7 +573,7 @@ constexpr auto conv(long long v) -> Text
     t.n          = static_cast<int>(r.ptr - t.s);
     return t;
 }
-constexpr auto CT_CONV = ct_map<Text>(T_CONV, [](long long v) { return conv(v); });
+constexpr auto CT_CONV = ct_map<Text, T_CONV>([](long long v) { return conv(v); });
 
 constexpr size_t SV_POS[] = {0, 1, 2, 5, static_cast<size_t>(-1)};
 constexpr size_t NSVP     = len(SV_POS);
@@ -547,13 +584,8 @@ constexpr auto sv_find(char const* h, char const* n, size_t pos) -> long long
 }
 constexpr auto compute_svfind()
 {
-    Arr3<long long, NSTR, NSTR, NSVP> r{};
-    for (size_t i = 0; i < NSTR; ++i) {
-        for (size_t j = 0; j < NSTR; ++j) {
-            for (size_t k = 0; k < NSVP; ++k) { r.v[i][j][k] = sv_find(T_STR[i], T_STR[j], SV_POS[k]); }
-        }
-    }
-    return r;
+    return ce_table<Arr3<long long, NSTR, NSTR, NSVP>>(
+        [](size_t c) { return sv_find(T_STR[c / (NSTR * NSVP)], T_STR[(c / NSVP) % NSTR], SV_POS[c % NSVP]); });
 }
 constexpr auto CT_SVFIND = compute_svfind();
 
@@ -581,9 +613,7 @@ constexpr auto work(char const* row) -> Work
 }
 constexpr auto compute_work()
 {
-    Arr<Work, NSTR> r{};
-    for (size_t i = 0; i < NSTR; ++i) { r.v[i] = work(T_STR[i]); }
-    return r;
+    return ce_table<Arr<Work, NSTR>>([](size_t i) { return work(T_STR[i]); });
 }
 constexpr auto CT_WORK = compute_work();
 
@@ -599,11 +629,7 @@ constexpr auto istr(char const* a, char const* b) -> Text
 }
 constexpr auto compute_istr()
 {
-    Arr2<Text, NSTR, NSTR> r{};
-    for (size_t i = 0; i < NSTR; ++i) {
-        for (size_t j = 0; j < NSTR; ++j) { r.v[i][j] = istr(T_STR[i], T_STR[j]); }
-    }
-    return r;
+    return ce_table<Arr2<Text, NSTR, NSTR>>([](size_t c) { return istr(T_STR[c / NSTR], T_STR[c % NSTR]); });
 }
 constexpr auto CT_ISTR = compute_istr();
 
@@ -618,9 +644,7 @@ constexpr auto ctype_all(int c) -> Ctype
 }
 constexpr auto compute_ctype()
 {
-    Arr<Ctype, 257> r{};
-    for (int c = -1; c < 256; ++c) { r.v[c + 1] = ctype_all(c); }
-    return r;
+    return ce_table<Arr<Ctype, 257>>([](size_t i) { return ctype_all(static_cast<int>(i) - 1); });
 }
 constexpr auto CT_CTYPE = compute_ctype();
 
@@ -637,11 +661,7 @@ constexpr auto sv_ops(char const* a, char const* b) -> SvOps
 }
 constexpr auto compute_svops()
 {
-    Arr2<SvOps, NSTR, NSTR> r{};
-    for (size_t i = 0; i < NSTR; ++i) {
-        for (size_t j = 0; j < NSTR; ++j) { r.v[i][j] = sv_ops(T_STR[i], T_STR[j]); }
-    }
-    return r;
+    return ce_table<Arr2<SvOps, NSTR, NSTR>>([](size_t c) { return sv_ops(T_STR[c / NSTR], T_STR[c % NSTR]); });
 }
 constexpr auto CT_SVOPS = compute_svops();
 
@@ -652,7 +672,7 @@ constexpr auto civil_back(long long z) -> long long
     auto const ymd = ch::year_month_day{ch::sys_days{ch::days{static_cast<int>(z)}}};
     return ch::sys_days{ymd}.time_since_epoch().count();
 }
-constexpr auto CT_CIVILBACK = ct_map<long long>(T_DAYS, [](long long z) { return civil_back(z); });
+constexpr auto CT_CIVILBACK = ct_map<long long, T_DAYS>([](long long z) { return civil_back(z); });
 
 // algorithms over the bytes of a row: reverse, find, max_element, is_sorted, rotate
 struct Algo2 {
@@ -683,9 +703,7 @@ constexpr auto algo2(char const* row) -> Algo2
 }
 constexpr auto compute_algo2()
 {
-    Arr<Algo2, NSTR> r{};
-    for (size_t i = 0; i < NSTR; ++i) { r.v[i] = algo2(T_STR[i]); }
-    return r;
+    return ce_table<Arr<Algo2, NSTR>>([](size_t i) { return algo2(T_STR[i]); });
 }
 constexpr auto CT_ALGO2 = compute_algo2();
 
@@ -750,6 +768,13 @@ bool check_val(Toks& in, T tableval, Out& impl)
         return false;
     }
     return true;
+}
+
+// impl leg of a flat ce_table case (a `ce-fail` entry is reported by vh::run_case through g_ce_fail)
+template <typename T>
+void put_ce(Out& impl, T const& t, size_t idx)
+{
+    impl.tok("ok").num(t[idx]);
 }
 
 bool check_row(Toks& in, size_t i, Out& impl)
@@ -835,7 +860,22 @@ void put_text(Out& o, Text const& t)
 
 } // namespace
 
+namespace {
+bool run_case_body(std::string const& op, Toks& in, Out& impl, Out& ref);
+}
+
+// a case whose compile-time table entry could not be constant-evaluated answers `ce-fail` (impl leg); the
+// reference leg (the run-time call) is kept
 bool vh::run_case(std::string const& op, Toks& in, Out& impl, Out& ref)
+{
+    g_ce_fail     = false;
+    bool const ok = run_case_body(op, in, impl, ref);
+    if (ok && g_ce_fail) { impl.s = "ce-fail"; }
+    return ok;
+}
+
+namespace {
+bool run_case_body(std::string const& op, Toks& in, Out& impl, Out& ref)
 {
     // ---- popcount <w> <idx> <x>
     if (op == "popcount") {
@@ -949,10 +989,10 @@ bool vh::run_case(std::string const& op, Toks& in, Out& impl, Out& ref)
         auto const* a = launder(static_cast<char const*>(T_STR[i]));
         auto const* b = launder(static_cast<char const*>(T_STR[j]));
         if (op == "strcmp") {
-            impl.tok("ok").num(CT_STRCMP.v[i][j]);
+            put_ce(impl, CT_STRCMP, i * NSTR + j);
             ref.tok("ok").num(sgn(etl::strcmp(a, b)));
         } else {
-            impl.tok("ok").num(CT_STRNCMP.v[i][j][k]);
+            put_ce(impl, CT_STRNCMP, (i * NSTR + j) * NCNT + k);
             ref.tok("ok").num(sgn(etl::strncmp(a, b, launder(STR_COUNTS[k]))));
         }
         return true;
@@ -971,13 +1011,32 @@ bool vh::run_case(std::string const& op, Toks& in, Out& impl, Out& ref)
         auto const* a = launder(static_cast<char const*>(T_STR[i]));
         if (op == "strchr") {
             char const* p = etl::strchr(a, launder(STR_CHARS[k]));
-            impl.tok("ok").num(CT_STRCHR.v[i][k]);
+            put_ce(impl, CT_STRCHR, i * NCHR + k);
             ref.tok("ok").num(p == nullptr ? -1 : static_cast<long long>(p - a));
         } else {
             void const* p = etl::memchr(static_cast<void const*>(a), launder(STR_CHARS[k]), launder(MEM_COUNTS[n]));
-            impl.tok("ok").num(CT_MEMCHR.v[i][k][n]);
+            put_ce(impl, CT_MEMCHR, (i * NCHR + k) * NMEM + n);
             ref.tok("ok").num(p == nullptr ? -1 : static_cast<long long>(static_cast<char const*>(p) - a));
         }
+        return true;
+    }
+    // ---- memchr_at <i> <k> <off> <n> <ch> <row>: search of [row + off, row + off + n), off + n <= STRW
+    if (op == "memchr_at") {
+        auto const i   = static_cast<size_t>(in.num());
+        auto const k   = static_cast<size_t>(in.num());
+        auto const off = static_cast<size_t>(in.num());
+        auto const n   = static_cast<size_t>(in.num());
+        if (i >= NSTR || k >= NCHR || off > static_cast<size_t>(STRW) || !at_pair(off, n)) { return false; }
+        if (!check_val(in, STR_CHARS[k], impl)) { return true; }
+        if (!check_row(in, i, impl)) { return true; }
+        // run time: a heap block of exactly STRW bytes (the range ends flush with the end of the object there too)
+        auto* const heap = new unsigned char[STRW];
+        for (int b = 0; b < STRW; ++b) { heap[b] = static_cast<unsigned char>(T_STR[i][b]); }
+        unsigned char const* const a = launder(static_cast<unsigned char const*>(heap)) + launder(off);
+        void const* p = etl::memchr(static_cast<void const*>(a), launder(STR_CHARS[k]), launder(n));
+        put_ce(impl, CT_MEMCHR_AT, ((i * NCHR + k) * NOFF + off) * NOFF + n);
+        ref.tok("ok").num(p == nullptr ? -1 : static_cast<long long>(static_cast<unsigned char const*>(p) - a));
+        delete[] heap;
         return true;
     }
     // ---- floating point: <fn> <f32|f64|ld> <idx> <bits>
@@ -1207,7 +1266,8 @@ bool vh::run_case(std::string const& op, Toks& in, Out& impl, Out& ref)
             impl.tok("table-mismatch");
             return true;
         }
-        auto const& c = two ? CT_WM.two[row][d][s][n] : CT_WM.one[row][d][s][n];
+        auto const wi = wm_index(static_cast<size_t>(row), static_cast<size_t>(d), static_cast<size_t>(s), static_cast<size_t>(n));
+        auto const& c = two ? CT_WM.two[wi] : CT_WM.one[wi];
         auto const r  = wm_rt(two, static_cast<int>(row), static_cast<int>(d), static_cast<int>(s), static_cast<int>(n));
         impl.tok("ok");
         ref.tok("ok");
@@ -1314,5 +1374,7 @@ bool vh::run_case(std::string const& op, Toks& in, Out& impl, Out& ref)
     }
     return false;
 }
+
+} // namespace
 
 VERIF_MAIN()
